@@ -1372,6 +1372,8 @@ def _execute13(sc):
     faults = sc.get("faults", [])
     log.emit("scenario", prop="C13", route=sc["route"], extra=sc.get("extra"),
              faults=[{k: v for k, v in f.items() if k not in ("value",)} for f in faults])
+    if any(f["kind"] == "csv" and f["op"] in ("nan", "inf", "huge") for f in faults):
+        log.digest_cut = log.seq      # non-finite data: see EventLog.digest_cut
     if not _in_domain(model, res, log):
         return res
     nodes = build_text(sc)
